@@ -48,7 +48,7 @@ func LoadVerifier(repo string, depsDir string) (*Verifier, error) {
 	if len(errs) > 0 {
 		return nil, fmt.Errorf("package errors:\n%s", strings.Join(errs, "\n"))
 	}
-	prog, _ := ssautil.AllPackages(pkgs, ssa.BuilderMode(0))
+	prog, _ := ssautil.AllPackages(pkgs, ssa.GlobalDebug)
 	prog.Build()
 	v := &Verifier{prog: prog, fset: prog.Fset, spkgs: map[string]*ssa.Package{}, tpkgs: map[string]*types.Package{},
 		byName: map[string]*types.Package{}, closures: map[Term]*ssa.MakeClosure{}, srcCache: map[string][]string{}, repo: repo,
@@ -376,7 +376,7 @@ func (v *Verifier) VerifyFunc(fc *FuncContract) (res *FuncResult) {
 	var obls []*Obligation
 	var allocs []Term
 	ex := &Exec{v: v, c: c, fn: fn, fc: fc, fname: fc.Full(), vals: map[ssa.Value]Val{}, obls: &obls,
-		count: map[string]int{}, allocs: &allocs, decAtHeader: map[*ssa.BasicBlock]Val{}, headerEnv: map[*ssa.BasicBlock]*Env{}, autoRange: map[*ssa.BasicBlock]*rangeInv{}, closureVals: map[Term]*ssa.MakeClosure{},
+		count: map[string]int{}, allocs: &allocs, decAtHeader: map[*ssa.BasicBlock]Val{}, headerEnv: map[*ssa.BasicBlock]*Env{}, autoRange: map[*ssa.BasicBlock]*rangeInv{}, debugBound: map[*Env]map[string]bool{}, paramNames: map[string]bool{}, closureVals: map[Term]*ssa.MakeClosure{},
 		stack: []string{fn.String()}, named: map[string]Val{}, callSeen: map[string]bool{}, assertSeen: map[string]bool{}}
 	ex.top = ex
 	ex.nilcheck = fc.Options["nilcheck"] != ""
@@ -397,7 +397,13 @@ func (v *Verifier) VerifyFunc(fc *FuncContract) (res *FuncResult) {
 	}()
 	v.emitAxioms(c, fc.Pkg)
 	mem := NewMem()
-	env := &Env{c: c, v: v, vars: map[string]Val{}, mem: mem, pkg: fn.Pkg.Pkg}
+	ex.ghostKeys = map[string]string{}
+	for _, g := range fc.Ghosts {
+		k := ghostKey(g.Name)
+		ex.ghostKeys[g.Name] = k
+		mem.m[k] = "((as const (Array Int (_ BitVec 64))) #x0000000000000000)"
+	}
+	env := &Env{c: c, v: v, vars: map[string]Val{}, mem: mem, pkg: fn.Pkg.Pkg, ghosts: ex.ghostKeys}
 	plan := &ReplayPlan{Fn: fn, PkgPath: fc.Pkg}
 	res.Plan = plan
 	res.EntryEnv = env
@@ -411,6 +417,7 @@ func (v *Verifier) VerifyFunc(fc *FuncContract) (res *FuncResult) {
 		}
 	}
 	bind := func(name string, t types.Type, sv ssa.Value) {
+		ex.paramNames[name] = true
 		pv := c.freshVal(t, "p_"+name)
 		pv.Typ = t
 		ex.vals[sv] = pv
@@ -464,7 +471,7 @@ func (v *Verifier) VerifyFunc(fc *FuncContract) (res *FuncResult) {
 
 	outReach, results, outMem := ex.run("true", mem)
 
-	post := &Env{c: c, v: v, vars: map[string]Val{}, mem: outMem, old: env, pkg: fn.Pkg.Pkg}
+	post := &Env{c: c, v: v, vars: map[string]Val{}, mem: outMem, old: env, pkg: fn.Pkg.Pkg, ghosts: ex.ghostKeys}
 	for k, val := range env.vars {
 		post.vars[k] = val
 	}
@@ -481,6 +488,7 @@ func (v *Verifier) VerifyFunc(fc *FuncContract) (res *FuncResult) {
 	for k, nv := range ex.named {
 		post.vars[k] = nv
 	}
+	defer func() {}()
 	// named local variables that live in memory (go/ssa Allocs) can be
 	// mentioned in ensures clauses; they denote the final content.
 	for _, b := range fn.Blocks {
@@ -501,6 +509,7 @@ func (v *Verifier) VerifyFunc(fc *FuncContract) (res *FuncResult) {
 			}
 		}
 	}
+	ex.bindDebugNames(post, nil)
 	for _, ca := range fc.CallAsserts {
 		if !ex.assertSeen[fmt.Sprintf("%d %s", ca.Ordinal, ca.Callee)] {
 			unsup("call clause: call %d of %s not found", ca.Ordinal, ca.Callee)
